@@ -3,7 +3,7 @@
    values that the independent serialisers of ISO/IEC 23008-2 7.3.2.3 / 7.3.6.1 coded. *)
 From V.lib Require Import Base.
 From V.c13 Require Import C13Spec C13Model.
-From V.c15 Require Import C15Model C15Spec C15HevcModel C15HevcSpec C15HevcPpsProofs C15HevcSliceExamples.
+From V.c15 Require Import C15Model C15Spec C15HevcModel C15HevcSpec C15HevcPpsProofs C15HevcSliceProofs C15HevcSliceExamples.
 
 Theorem C15_hevc_pps : forall spsmap v,
   hpps_valid v = true -> spsmap (sx_pps_seq_parameter_set_id v) = true ->
@@ -20,3 +20,15 @@ Example C15_hevc_pps_hyp :
   /\ pp_range_flag (expected_hpps ex_hpps_tiles) = true
   /\ pp_scc_flag (expected_hpps ex_hpps_tiles) = true.
 Proof. vm_compute. repeat split; reflexivity. Qed.
+
+(* Full statement (target): the same without the last hypothesis (the header of a valid slice is
+   far shorter than 2^32 bytes; the bound is what is still to be derived from hslice_valid). *)
+Theorem C15_hevc_slice_partial : forall spsmap ppsmap sp pp v,
+  hsps_valid sp = true -> hpps_valid pp = true -> hslice_valid sp pp v = true ->
+  hslice_rps_guard sp pp v = true ->
+  ppsmap (sx_slice_pic_parameter_set_id v) = Some (expected_hpps pp) ->
+  spsmap (sx_pps_seq_parameter_set_id pp) = Some (expected_hsps sp) ->
+  nbytes_at (hraw_slice sp pp v) (hslice_size_bits sp pp v) < 4294967296 ->
+  hparse_slice_br spsmap ppsmap (hnalu_slice sp pp v) = Ok (expected_hslice sp pp v).
+Proof. exact hevc_slice_sz. Qed.
+Print Assumptions C15_hevc_slice_partial.
